@@ -11,7 +11,7 @@ KNOWN = [{
 
 def run(tier, replay):
     return ledgercheck.run_ledger_check(
-        "C07", tier, replay, "c07", [L.oracle_c07],
+        "C07", tier, replay, "c07", [L.oracle_c07, L.oracle_no_panic],
         "Oracle: full snapshot diff around every foreign call (receive_tx incl. tampered amounts 0/u64::MAX/cutoffs and replays, "
         "build_coinbase with caller-named keys, finalize_tx with forged replies): no existing output changed or removed, no context "
         "consumed, spendable not decreased; successful receive adds exactly one Unconfirmed output of the slate amount and one entry, "
